@@ -8,6 +8,7 @@ import ModbusVerif.Model.Role
 import ModbusVerif.Spec.RoleSpec
 import ModbusVerif.Model.Lifecycle
 import ModbusVerif.Model.Heap
+import ModbusVerif.Model.Tls
 /-
   mbmodel: line protocol. One operation per input line, one canonical output line.
   Unknown or malformed lines print `bad-op` (never a default).
@@ -256,6 +257,19 @@ def step (line : String) : String :=
       | some (h', out) => "arr=" ++ hex (h'.getD 0 []) ++ " out=" ++ hex (Heap.load h' out)
       | none => "panic"
     | _, _, _, _ => "bad-op"
+  | ["tlsmatrix", side, ver, cred] =>
+    let c? : Option Tls.Cred := match cred with
+      | "none" => some .none | "selfSigned" => some .selfSigned | "foreignCA" => some .foreignCA
+      | "expired" => some .expired | "notYetValid" => some .notYetValid | "wrongKeyUsage" => some .wrongKeyUsage
+      | "wrongHost" => some .wrongHost | "pinnedLeaf" => some .pinnedLeaf | "validChain" => some .validChain
+      | _ => none
+    match ver.toNat?, c? with
+    | some v, some c =>
+      let p : Tls.Peer := if v = 0 then .plainText else .tls v c
+      if side = "server" then (if Tls.serverHandshakeOk p then "served" else "refused")
+      else if side = "client" then (if Tls.clientHandshakeOk p then "served" else "refused")
+      else "bad-op"
+    | _, _ => "bad-op"
   | ["crc", data] =>
     match unhex data with
     | some d => hex (Crc.crc16 d) ++ " ref=" ++ hex (le16 (Crc.refCrc d))
